@@ -206,7 +206,7 @@ def check(ctx):
                 for val, bb in helper.term(sb2)['targets']:
                     if val == 0:
                         edges.add((sb2, bb))
-            if edges and not any(e in helper.reachable(0, removed_edges=edges) for e in ebs):
+            if edges and not any(e in reach_under(helper, htb, {}, removed_edges=edges) for e in ebs):
                 ctx.ok('C10.3', ctx.site(helper, ebs[0]), 'Err(UnknownRecipient) only after every sealed message was tried')
             else:
                 ctx.fail('C10.3', ctx.site(helper, ebs[0]), 'UnknownRecipient can be returned before every sealed message was tried (a listed recipient may be locked out)', key='C10.3|early_unknown')
